@@ -278,6 +278,62 @@ def _glue(lme_tree, ple_tree):
     return setup, checks, opt_call, appended, pcalls, pappend, psource
 
 
+# ----------------------------------------------------------------------------- expressions -> Lean terms
+VEC_NAMES = {"x_prev": "x", "y_prev": "y", "moment_prev": "m", "moment_next": "mn", "x_prev_prev": "xpp", "tmp": "t"}
+SCA_NAMES = {"mu": "mu", "alpha": "alpha", "gamma": "gamma", "zeta": "zeta", "delta": "delta"}
+
+
+def _term(n):
+    """(lean term, 'v' | 's') of a numpy expression of the update formulas; raises on anything outside the fragment"""
+    if isinstance(n, ast.Name):
+        if n.id in VEC_NAMES:
+            return VEC_NAMES[n.id], "v"
+        if n.id in SCA_NAMES:
+            return SCA_NAMES[n.id], "s"
+        raise Untranslatable(f"expression: unknown name {n.id}")
+    if isinstance(n, ast.Constant) and isinstance(n.value, (int, float)):
+        if n.value == 1:
+            return "1", "s"
+        if n.value == 0.95:
+            return "c95", "s"
+        raise Untranslatable(f"expression: unexpected constant {n.value!r}")
+    if isinstance(n, ast.Call):
+        fn = ast.unparse(n.func)
+        args = [_term(a) for a in n.args]
+        if fn == "loss_function.gradient" and len(args) == 1 and args[0][1] == "v":
+            return f"grad ({args[0][0]})", "v"
+        if fn == "loss_function.value" and len(args) == 1 and args[0][1] == "v":
+            return f"f ({args[0][0]})", "s"
+        if fn == "self.func_proj" and len(args) == 1 and args[0][1] == "v":
+            return f"proj ({args[0][0]})", "v"
+        if fn == "np.dot" and len(args) == 2 and args[0][1] == "v" and args[1][1] == "v":
+            return f"dot ({args[0][0]}) ({args[1][0]})", "s"
+        raise Untranslatable(f"expression: unexpected call {fn}")
+    if isinstance(n, ast.BinOp):
+        if isinstance(n.op, ast.Div) and ast.unparse(n) == "(k - 2) / (k + 1)":
+            return "kcoef k", "s"
+        (a, ta), (b, tb) = _term(n.left), _term(n.right)
+        if isinstance(n.op, (ast.Add, ast.Sub)) and ta == tb:
+            return f"({a} {'+' if isinstance(n.op, ast.Add) else '-'} {b})", ta
+        if isinstance(n.op, ast.Mult):
+            if ta == "s" and tb == "v":
+                return f"({a} • {b})", "v"
+            if ta == "s" and tb == "s":
+                return f"({a} * {b})", "s"
+        if isinstance(n.op, ast.Div) and ta == "v" and tb == "s":
+            return f"((1 / {b}) • {a})", "v"
+        raise Untranslatable(f"expression: unsupported operation in {ast.unparse(n)}")
+    raise Untranslatable(f"expression: unsupported node {ast.unparse(n)}")
+
+
+def _assign_node(node, target, what):
+    for n in ast.walk(node):
+        if isinstance(n, ast.Assign) and len(n.targets) == 1 and isinstance(n.targets[0], ast.Name) and n.targets[0].id == target \
+                and not isinstance(n.value, ast.Constant):
+            return n.value
+    raise Untranslatable(f"{what}: assignment to {target} not found")
+
+
 def lstr(xs):
     return "[" + ", ".join('"' + x.replace('"', '\\"') + '"' for x in xs) + "]"
 
@@ -338,6 +394,14 @@ def translate():
     mdflt = _defaults(_func(pgdm, "ProjectedGradientDescentWithMomentumOption", "__init__"))
 
     g_setup, g_checks, g_opt, g_app, p_calls, p_app, p_src = _glue(_tree(LME), _tree(PLE))
+
+    T = lambda node, tgt, what: _term(_assign_node(node, tgt, what))[0]  # noqa
+    terms = {
+        "yPrev": T(lb, "y_prev", "backtracking"), "xNextPgdb": T(lb, "x_next", "backtracking"),
+        "armijoLeft": T(arm_fn, "left_side", "_is_doing_for_alpha"), "armijoRight": T(arm_fn, "right_side", "_is_doing_for_alpha"),
+        "momentNext": T(lm, "moment_next", "momentum"), "xNextPgdm": T(lm, "x_next", "momentum"), "zetaNext": T(lm, "zeta", "momentum"),
+        "fistaTmp": T(lf, "tmp", "fista"), "xNextFista": T(lf, "x_next", "fista"),
+    }
 
     def row(e, i, name, args):
         if e is None:
@@ -431,6 +495,23 @@ appended (with / without computation times) -/
 def pleSource : List String := {lstr(p_src)}
 def pleLoopCalls : List String := {lstr(p_calls)}
 def pleAppended : List String := {lstr(p_app)}
+
+/-! ## the update formulas as Lean terms, translated from the source expressions (numpy `*`, `/`, `np.dot`, `loss_function.value`,
+`loss_function.gradient`, `self.func_proj`; `(k - 2) / (k + 1)` is `kcoef k`, the literal `0.95` is `c95`) -/
+section terms
+variable {{K V : Type}} [Add V] [Sub V] [SMul K V] [Add K] [Sub K] [Mul K] [Div K] [One K]
+
+def yPrev (proj grad : V → V) (mu : K) (x : V) : V := {terms["yPrev"]}
+def xNextPgdb (x y : V) (alpha : K) : V := {terms["xNextPgdb"]}
+def armijoLhs (f : V → K) (x y : V) (alpha : K) : K := {terms["armijoLeft"]}
+def armijoRhs (f : V → K) (grad : V → V) (dot : V → V → K) (x y : V) (alpha gamma : K) : K := {terms["armijoRight"]}
+def momentNext (grad : V → V) (zeta gamma : K) (m x : V) : V := {terms["momentNext"]}
+def xNextPgdm (proj : V → V) (x mn : V) : V := {terms["xNextPgdm"]}
+def zetaNext (zeta c95 : K) : K := {terms["zetaNext"]}
+def fistaTmp (grad : V → V) (kcoef : Nat → K) (delta : K) (k : Nat) (x xpp : V) : V := {terms["fistaTmp"]}
+def xNextFista (proj : V → V) (t : V) : V := {terms["xNextFista"]}
+
+end terms
 
 end QGen.C10
 '''
